@@ -150,13 +150,66 @@ def merge(prop, reg, results):
             "trusted_base": ["lemma instances used (status in coverage.lemmas): " + ", ".join(sorted(lemmas))]}
 
 
+C_PROPS = ("C17",)
+
+
+def run_c(prop):
+    """C front end (vf/qvc_c): memory-safety obligations of the annealing kernels, generated from clang's AST of the
+    current .c files. Returns a record shaped like merge()'s."""
+    from .. import qvc_c
+    os.environ.setdefault("VERIF_REPO", REPO)
+    r = qvc_c.run_all()
+    lock = load_lock()
+    obl = []
+    for o in r["obligations"]:
+        obl.append({"name": o["name"], "status": o["status"], "time_s": o.get("time_s", 0.0), "backend": o.get("backend"),
+                    "paths": o.get("paths", 1), "function": "c:%s" % o["name"].split("/")[1][2:].rsplit(":", 1)[0],
+                    "detail": o.get("detail"), "model": o.get("model"), "note": o.get("note"),
+                    "what": "%s:%s `%s`: %s" % (o["name"].split("/")[1], o.get("line"), o.get("src"), o.get("what")),
+                    "locked": (lock is None) or (o["name"] in lock)})
+    functions = {}
+    for fkey, f in r["functions"].items():
+        functions["c:" + fkey] = dict(f)
+    errors = list(r["errors"])
+    lem = {"C-" + k: {"statement": v, "status": "proved by induction, its VCs are discharged on every run (theory:psum_bounds)"}
+           for k, v in r.get("lemmas", {}).items()}
+    return {"obligations": obl, "functions": functions,
+            "left_reach": [{"function": "c:" + x["function"], "reason": x["reason"]} for x in r["left_reach"]],
+            "errors": errors, "lemmas": lem, "files_sha": {"qubovert/sim/src/" + k: v for k, v in r["files_sha"].items()},
+            "canaries_total": sum((f.get("canaries") or {}).get("points", 0) for f in r["functions"].values() if isinstance(f.get("canaries"), dict)),
+            "canaries_ok": sum((f.get("canaries") or {}).get("sat", 0) for f in r["functions"].values() if isinstance(f.get("canaries"), dict)),
+            "vacuity_queries": sum((f.get("canaries") or {}).get("points", 0) for f in r["functions"].values() if isinstance(f.get("canaries"), dict)),
+            "assumptions": ["C kernels: " + a for a in r["assumptions"]],
+            "trusted_base": ["C front end: " + t for t in r["trusted_base"]],
+            "c_entry_preconditions": r.get("entry_preconditions"), "c_header_policy": r.get("header_policy"),
+            "c_probes": r.get("probes")}
+
+
+def _join(a, b):
+    if a is None:
+        return b
+    if b is None:
+        return a
+    out = dict(a)
+    for k in ("obligations", "left_reach", "errors", "assumptions", "trusted_base"):
+        out[k] = list(a.get(k, [])) + list(b.get(k, []))
+    for k in ("functions", "lemmas", "files_sha"):
+        out[k] = dict(a.get(k, {}), **b.get(k, {}))
+    for k in ("canaries_total", "canaries_ok", "vacuity_queries"):
+        out[k] = a.get(k, 0) + b.get(k, 0)
+    for k, v in b.items():
+        out.setdefault(k, v)
+    return out
+
+
 def run_property(prop, tier, seed):
     if tier == "thorough":
         os.environ["QVC_CROSSCHECK"] = "1"
     reg, results = run_all(lambda c: prop in c.props, tier)
-    if not results:
+    cres = run_c(prop) if prop in C_PROPS else None
+    if not results and cres is None:
         return None
-    m = merge(prop, reg, results)
+    m = _join(merge(prop, reg, results) if results else None, cres)
     if tier == "thorough":
         agree = sum(1 for o in m["obligations"] for s2 in o.get("second", []) if s2.endswith(": unsat"))
         other = sum(1 for o in m["obligations"] for s2 in o.get("second", []) if not s2.endswith(": unsat"))
@@ -189,6 +242,10 @@ def relock():
             continue
         r = merge(prop, reg, sub)
         for o in r["obligations"]:
+            if o["status"] == "discharged":
+                names.add(o["name"])
+    for prop in C_PROPS:
+        for o in run_c(prop)["obligations"]:
             if o["status"] == "discharged":
                 names.add(o["name"])
     with open(LOCK, "w") as f:
